@@ -636,6 +636,11 @@ func (v *StrictArray) MarshalBinary() (data []byte, err error) {
 		return nil, oe.Wrap(err, "marshal")
 	}
 
+	// The count is the number of elements, for the array may be built by Set.
+	v.lock.Lock()
+	v.count = uint32(len(v.properties))
+	v.lock.Unlock()
+
 	if err = binary.Write(b, binary.BigEndian, v.count); err != nil {
 		return nil, oe.Wrap(err, "marshal")
 	}
